@@ -11,6 +11,7 @@ import (
 	"fmt"
 	"os"
 	"path/filepath"
+	"runtime"
 	"sort"
 	"strconv"
 	"strings"
@@ -310,4 +311,32 @@ func (r *Run) Finish() {
 func Fatal(format string, a ...any) {
 	fmt.Fprintf(os.Stderr, "HARNESS ERROR: "+format+"\n", a...)
 	os.Exit(2)
+}
+
+// Guard runs fn and turns a panic of the code under test into a violation.
+// It returns false if fn panicked.
+func (r *Run) Guard(part, sig string, replay any, fn func()) (ok bool) {
+	defer func() {
+		if p := recover(); p != nil {
+			buf := make([]byte, 4096)
+			buf = buf[:runtime.Stack(buf, false)]
+			r.Violate(part, sig, fmt.Sprintf("panic: %v\n%s", p, buf), replay)
+			ok = false
+		}
+	}()
+	fn()
+	return true
+}
+
+// RecoverMain is deferred in main(): a panic that escapes everything else is
+// reported as a violation (the code under test must not panic) and the run is
+// finished with what was covered so far.
+func (r *Run) RecoverMain() {
+	if p := recover(); p != nil {
+		buf := make([]byte, 6000)
+		buf = buf[:runtime.Stack(buf, false)]
+		r.Violate("main", "panic-escaped", fmt.Sprintf("panic: %v\n%s", p, buf), nil)
+		r.AddPart(&Part{Name: "aborted-by-panic", Engine: "-", Exhaustive: false, Bound: "run aborted by a panic"})
+		r.Finish()
+	}
 }
